@@ -581,6 +581,11 @@ func (e *panicEngine) checkCall(fn *ssa.Function, nf *nilFacts, oblige obligeFn,
 	if isNoPanicExternal(name) {
 		return
 	}
+	if name == "(*strings.Builder).Grow" || name == "(*bytes.Buffer).Grow" {
+		ok, why := e.prover(fn).ProveLE(c.Block(), e.prover(fn).Form(com.Args[1]).Scale(-1))
+		oblige(c, "Grow(n): n >= 0", ok, why)
+		return
+	}
 	if strings.HasPrefix(name, "(*sync.") || strings.HasPrefix(name, "sync.") {
 		return
 	}
